@@ -97,18 +97,21 @@ def run_builtin(job, res):
     rng = np.random.default_rng(job["seed"])
     L = rng.normal(size=(6, 6)) * np.array([30.0, 30, 30, 0.03, 0.03, 0.03])[:, None]
     c0 = L @ L.T
-    kep = [7.2e6, 0.02, 0.9, 1.0, 2.0, 0.7]
+    # near-circular ascending, eccentric descending (r.v < 0: QSW and TNW differ by a sizeable flight-path angle), Molniya-like
+    keps = [[7.2e6, 0.02, 0.9, 1.0, 2.0, 0.7], [1.2e7, 0.3, 0.9, 1.0, 2.0, 4.0], [2.66e7, 0.7, 1.1, 0.3, 4.7, 5.4], [9.0e6, 0.2, 2.0, 3.0, 1.0, 2.2]]
+    kep = keps[0]
     kinds = set()
-    for w in job["walks"]:
+    for wi, w in enumerate(job["walks"]):
         start = w["start"]
+        kep = keps[wi % len(keps)]
 
         def fresh():
             sv = StateVector(kep, DATE, "keplerian", "EME2000").copy(frame=start, form="cartesian")
             sv.cov = Cov(sv, c0, fr.get_frame(start))
             return sv
         sv = fresh()
-        data = {"start": start, "walk": w["targets"], "how": "Cov on a cartesian state in `start`; cov.frame = t for t in walk; "
-                "compared with one hop from a fresh object"}
+        data = {"start": start, "walk": w["targets"], "kep": kep, "how": "Cov on a cartesian state (keplerian elements kep in EME2000) expressed in "
+                "`start`; cov.frame = t for t in walk; compared with one hop from a fresh object"}
         acts = w.get("acts") or [["cov", t] for t in w["targets"]]
         data["acts"] = acts
         try:
